@@ -23,7 +23,7 @@ from ..engine import R, Sub
 PROPERTY = 'C04'
 LEVEL = 'fault_enumeration'
 ASSUMPTIONS = [
-    '"can be rebuilt from its args" is read as: the constructor accepts the args AND the new instance accepts attribute assignment (needed to attach the trace)',
+    '"can be rebuilt from its args" is read as: the constructor accepts the args, the new instance accepts attribute assignment (needed to attach the trace) AND the class can be subclassed (an object that is also a GlomError needs a common subclass)',
     'pass-through sites: the exception object O raised by user code must leave glom() as an instance of type(O) with args == O.args; if '
     'type(O)(*O.args) succeeds the escaping object must also be a GlomError',
     'converting sites (documented): path access handlers -> PathAccessError, Match predicate -> MatchError, Check validator -> CheckError, '
@@ -405,6 +405,8 @@ def rebuildable(O):
     try:
         twin = type(O)(*O.args)
         twin._verif_probe_attribute = 1
+        if not isinstance(O, GlomError):
+            type('Probe', (type(O), GlomError), {})     # an object that is both needs a common subclass: impossible for final classes
         return True
     except Exception:
         return False
